@@ -152,10 +152,13 @@ CHECKS = {
         text=("Coq proof over the regenerated pandas contains_ops: for the 18 shipped types whose predicate does not inspect a prefix of the rows, `seq in T` is identical for every "
               "permutation of the rows and for repetition of the sequence, for all dtypes, values and lengths; the six prefix-testing types are refuted with computed witnesses "
               "(recorded findings). Index labels and name are not part of the abstract series. detect_type / infer_type / membership invariance under all row permutations (n <= 4), "
-              "relabelling, renaming and k-fold repetition is checked on the implementation for pandas, numpy and list inputs."),
+              "relabelling, renaming and k-fold repetition is checked on the implementation for pandas, numpy and list inputs. Python-list backend: the 22 Sequence contains_ops and their "
+              "decorators are regenerated from source (vfw/gen_python.py) and `list in T` is proved, for all 24 types, to be a function of the SET of elements (hence of any row order and any "
+              "k-fold repetition); the extracted predicates are compared with the implementation on all lists of length <= 2 over 51 elements of every value kind, runs plus one odd value, "
+              "and random lists, and the same pure lists are permuted / repeated on the implementation."),
         ref="DESIGN.md section 3 (C11)",
         note=TB_COMMON + "Transfer to detect_type/infer_type is not proved (whole-column parsers such as pd.to_datetime are oracles); it is checked dynamically. Known findings F11a, F11b, F11np, F11list.",
-        technique="Coq proof (permutation / repetition invariance of translated predicates via Permutation lemmas) + exhaustive small-permutation oracle on the implementation",
+        technique="Coq proof (permutation / repetition invariance of translated pandas and Python-list predicates via Permutation / same-elements lemmas) + extracted-model correspondence + exhaustive small-permutation oracle on the implementation",
     ),
     "C03": dict(
         text=("Coq composition theorems over the reference walk (which the generated infer is proved to compute): if every relation that is taken lands in its target type and the root "
@@ -195,7 +198,9 @@ CHECKS = {
     "C07": dict(
         text=("Coq proofs over the regenerated pandas predicates: an empty column belongs to no shipped type but Generic; any dtype for which the pandas family predicate answers True (any width, "
               "numpy or nullable, any placement of missing values) is recognised as Integer / Float / Boolean / DateTime. String- and object-encoded families pass through parser relations and are "
-              "decided on the implementation over the family x encoding x sentinel x position x length x index grid."),
+              "decided on the implementation over the family x encoding x sentinel x position x length x index grid. Python lists: the empty list is proved to be in no identity child of Generic "
+              "that a shipped typeset includes (regenerated Sequence contains_ops). numpy arrays of every float / complex width and Python lists of floats (deterministic corners up to and beyond "
+              "the int64 range): the cast values are compared with the original values on the implementation."),
         ref="DESIGN.md section 3 (C07)",
         note=TB_COMMON + "Known findings F07a (object-dtype numbers stay Object), F07b (string-encoded Path/UUID/IP/Email/Geometry with missing values stay String).",
         technique="Coq proof (emptiness and dtype-family lemmas on translated predicates) + encoding-grid oracle",
